@@ -1188,7 +1188,10 @@ func (p *Parser) parsePropertyName(in string) (propertyName PropertyName) {
 		p.next()
 	} else if p.tt == OpenBracketToken {
 		p.next()
+		prevAssumeArrowFunc := p.assumeArrowFunc
+		p.assumeArrowFunc = false // a computed key is not part of the arrow function parameters
 		propertyName.Computed = p.parseExpression(OpAssign)
+		p.assumeArrowFunc = prevAssumeArrowFunc
 		if !p.consume(in, CloseBracketToken) {
 			return
 		}
